@@ -36,6 +36,11 @@ def base_case(rng, i):
                       "{{#each nosuch}}A{{else lookup @root \"ml\"}}{{/each}}{{#with nosuch}}B{{else len ml}}{{/with}}"])
     # a helper that writes through the `write!` macro with a format argument (Output::write_fmt)
     main += rng.pick(["", "{{wf ml}}", "<{{wf \"k=v\"}}>{{#if ml}}{{wf 12345}}{{/if}}", "{{#each ml}}{{/each}}{{wf ml}}|{{wf \"\"}}|"])
+    if rng.chance(0.4):
+        # the hooks for unknown names registered as helpers that WRITE: their write calls are write calls of the render like any other
+        cfg["helpers"] = cfg["helpers"] + [{"name": "helperMissing", "kind": "mark", "tag": "HM"}, {"name": "blockHelperMissing", "kind": "mark", "tag": "BHM"}]
+        main += rng.pick(["a{{nope}}", "{{nope}}|{{nope2}}z", "{{#nob 1}}body{{/nob}}{{nope}}", "{{#each ml}}{{/each}}{{nohelper 1 2}}|{{nope}}",
+                          "\n  {{> p0}}\n{{nope}}{{{nope3}}}"])
     named = rng.chance(0.5)
     return cfg, [("p0", p0), ("main", main)], data, named
 
